@@ -32,7 +32,11 @@ from vlib import replay as rp
 PROP = "C20"
 INPUT_KEYS = {"k", "l", "r", "t", "sn", "kf"}
 STATE_INVS = ["TypeOK", "Coherent", "RegistryIsLinkedPlusPhantoms"]
-ALL_F = ("F3a", "F3b")
+ALL_F = ("F3a", "F3b", "F3d", "F3e", "F3f")
+G_INPUT = {"k", "a", "u", "nest"}
+I_INVS = ["TypeOK", "Conservation", "LanesKnown", "PulsesTrue", "NodeIsSumOfLanes", "LaneMetaAvailable"]
+I_INPUT = {"k", "l", "r", "m"}
+RATE_MUL = 2            # pulse interval of the harness: 500 ms
 
 
 def fset(fs):
@@ -258,12 +262,210 @@ def run_r_level(out, wd, pb, paths, nl, nr, rng, stats, findings_text, tag):
                           {"component": "links", "case": c, "observed": r})
 
 
+
+# ----------------------------------------------------------------------------- level I: the reporting layer
+
+I_PROBES = [
+    # does a lane registration overtake the registration of its agent?  (an empty poll flips select()'s preference)
+    {"id": "pd", "cfg": {"level": "I", "nl": 1, "nr": 1},
+     "acts": [{"k": "ipoll"}, {"k": "reg"}, {"k": "addlane", "l": 1}, {"k": "ipoll"}, {"k": "mnode"}, {"k": "ipoll"},
+              {"k": "synclanes"}]},
+    # does a lane meta agent stay alive?
+    {"id": "pe", "cfg": {"level": "I", "nl": 1, "nr": 1},
+     "acts": [{"k": "reg"}, {"k": "ipoll"}, {"k": "addlane", "l": 1}, {"k": "ipoll"}, {"k": "mlane", "l": 1}, {"k": "ipoll"}]},
+]
+
+# the findings' signatures and a plain run of everything, always replayed
+I_SIGNATURES = [
+    I_PROBES[0]["acts"] + [{"k": "mlane", "l": 1}, {"k": "ipoll"}],
+    I_PROBES[1]["acts"] + [{"k": "tick"}],
+    [{"k": "reg"}, {"k": "ipoll"}, {"k": "addlane", "l": 1}, {"k": "addlane", "l": 2}, {"k": "ipoll"}, {"k": "att", "r": 1},
+     {"k": "link", "r": 1, "l": 1}, {"k": "ev", "l": 1}, {"k": "cmd", "l": 2}, {"k": "mnode"}, {"k": "mlane", "l": 1},
+     {"k": "mlane", "l": 2}, {"k": "ipoll"}, {"k": "link", "r": 1, "l": 2}, {"k": "ev", "l": 1}, {"k": "ev", "l": 2},
+     {"k": "ev", "l": 2}, {"k": "cmd", "l": 1}, {"k": "tick"}, {"k": "syncp", "m": 0}, {"k": "syncp", "m": 2},
+     {"k": "synclanes"}, {"k": "unlink", "r": 1, "l": 1}, {"k": "tick"}, {"k": "stopmeta", "m": 2}, {"k": "ev", "l": 2},
+     {"k": "mlane", "l": 2}, {"k": "ipoll"}, {"k": "fail", "l": 1}, {"k": "tick"}, {"k": "synclanes"}, {"k": "stop"},
+     {"k": "tick"}, {"k": "ipoll"}, {"k": "mnode"}, {"k": "ipoll"}],
+]
+
+
+def probe_i(wd):
+    res = rp.run_cases("h_runtime", "introspect", I_PROBES, wd, tag="iprobe", input_keys=None, strip=False)
+    for r in res:
+        if r.get("panic"):
+            raise core.ToolError("probe (introspect) panicked: %s" % r["panic"])
+    msg_first = res[0]["obs"][-1]["ls"] == [1]
+    lives = res[1]["obs"][-1]["ms"][1] == 2
+    return {"MsgFirst": msg_first, "LaneMetaLives": lives}
+
+
+def i_consts(nl, nr, maxc, variant, excuse, path_len=None):
+    k = dict(NL=nl, NR=nr, MaxCount=maxc, RateMul=RATE_MUL, LaneMetaLives=variant["LaneMetaLives"],
+             MsgFirst=variant["MsgFirst"], Excuse=fset(excuse))
+    if path_len is not None:
+        k["PathLen"] = path_len
+    return k
+
+
+def job_icheck(wd, tag, k, extra_invs=(), workers=1, timeout=3000):
+    c = core.cfg(constants=k, invariants=I_INVS + list(extra_invs), view="View", constraints=["Bounded"])
+    return core.run_tlc("Introspection", c, os.path.join(wd, tag), workers=workers, timeout=timeout)
+
+
+def job_isim(wd, tag, k, num, seed):
+    c = core.cfg(init="SimInit", next_="SimNext", constants=k, invariants=I_INVS + ["PathDump"],
+                 constraints=["Bounded", "SimBound"])
+    return core.run_tlc("Sim_Introspection", c, os.path.join(wd, tag), workers=1, simulate="num=%d" % num, coverage=False,
+                        extra=["-depth", str(k["PathLen"] + 1), "-seed", str(seed)], timeout=3000)
+
+
+def i_norm(o):
+    """what is compared with M: the pulses, the listing, the states of the meta agents"""
+    return {"px": o.get("px", []), "ls": [-1] if o.get("ls") is None else o["ls"], "ms": o.get("ms", [])}
+
+
+def i_why(s):
+    if s == "ok":
+        return "ok"
+    if "No lane named" in s:
+        return "nolane"
+    if "No running agent" in s:
+        return "noagent"
+    return "other"
+
+
+def i_trace(case, result):
+    cfg = case["cfg"]
+    ev = [{"k": "reset", "nl": cfg["nl"], "nr": cfg["nr"], "mul": RATE_MUL}]
+    for a, o in zip(case["acts"], result.get("obs", [])):
+        e = {k: a[k] for k in ("k", "l", "r", "m") if k in a}
+        e.update(i_norm(o))
+        if o.get("why"):
+            e["why"] = [[m, i_why(w)] for m, w in o["why"]]
+        ev.append(e)
+    return ev
+
+
+def run_i_level(out, wd, paths, nl, nr, openf, stats, findings_text, tag, with_expected=True):
+    """replay on the real introspection task + meta agents; compare with M; P (Trace_Introspection) decides"""
+    cases = [{"id": "%s.%d" % (tag, i), "cfg": {"level": "I", "nl": nl, "nr": nr}, "acts": p} for i, p in enumerate(paths) if p]
+    if not cases:
+        return
+    results = rp.run_cases("h_runtime", "introspect", cases, wd, tag=tag, input_keys=I_INPUT)
+    items = []
+    for c, r in zip(cases, results):
+        stats["i_cases"] += 1
+        stats["i_steps"] += len(c["acts"])
+        if r.get("panic"):
+            if str(r["panic"]).startswith("harness:"):
+                raise core.ToolError("harness: %s (case %s)" % (r["panic"], c["id"]))
+            out.violation("panic in the introspection layer (%s case %s): %s" % (tag, c["id"], r["panic"]),
+                          {"component": "introspect", "case": c, "observed": r})
+            stats["rejected"] += 1
+            continue
+        if any(o.get("agent_ended_unexpectedly") or o.get("agent_did_not_stop") for o in r.get("obs", [])):
+            raise core.ToolError("harness: the observed agent did not behave as scripted (case %s)" % c["id"])
+        if with_expected:
+            exp = [rp.project(a, I_INPUT) for a in c["acts"]]
+            obs = [i_norm(o) for o in r.get("obs", [])]
+            d = next((i for i in range(len(exp)) if i >= len(obs) or exp[i] != obs[i]), None)
+            if d is None:
+                stats["i_conform"] += 1
+            else:
+                stats["i_drift_candidates"].append((c, r, d))
+        items.append((c, r))
+    pb = PBatch(wd, openf & {"F3d", "F3e"}, module="Trace_Introspection", trace_of=i_trace, tag="itv_" + tag)
+    verdicts = pb.validate(items)
+    stats["i_p_events"] += pb.events
+    drifting = {id(c): d for c, r, d in stats["i_drift_candidates"]}
+    for (c, r), v in zip(items, verdicts):
+        if v is None:
+            stats["unexamined"] += 1
+            continue
+        stats["p_validated"] += 1
+        if v["accepted"]:
+            stats["i_accepted"] += 1
+            for f in v["kf"]:
+                stats["i_kf_hits"][f] = stats["i_kf_hits"].get(f, 0) + 1
+                stats["kf_hits"][f] = stats["kf_hits"].get(f, 0) + 1
+                out.known_finding(findings_text[f])
+            if id(c) in drifting:
+                stats["drift"] += 1
+                if stats["drift"] <= 3:
+                    d = drifting[id(c)]
+                    out.notes.append("MODEL-DRIFT %s case %s step %s: M expects %s, real code gave %s" % (
+                        tag, c["id"], d, json.dumps(c["acts"][d]) if d < len(c["acts"]) else None,
+                        json.dumps(r.get("obs", [])[d]) if d < len(r.get("obs", [])) else None))
+        else:
+            stats["rejected"] += 1
+            out.violation("introspection layer, %s case %s: %s" % (tag, c["id"], v["detail"]),
+                          {"component": "introspect", "case": c, "observed": r})
+    stats["i_drift_candidates"] = []
+
+
+# ----------------------------------------------------------------------------- level G: the registry of agents
+
+G_PROBES = [
+    {"id": "pf1", "cfg": {"level": "G"},
+     "acts": [{"k": "greg", "a": 1, "u": 2}, {"k": "ipoll"}, {"k": "greg", "a": 2, "u": 1}, {"k": "gresolve", "u": 1}]},
+    {"id": "pf2", "cfg": {"level": "G"},
+     "acts": [{"k": "greg", "a": 1, "u": 2}, {"k": "greg", "a": 2, "u": 3}, {"k": "gresolve", "u": 3}]},
+]
+
+
+def job_gcheck(wd, tag, k, dump=False, workers=1):
+    invs = ["TypeOK", "RegistryTrue"] + (["InitDump"] if dump else [])
+    c = core.cfg(constants=k, invariants=invs, view="View", action_constraints=["EdgeDump"] if dump else ())
+    return core.run_tlc("MC_IntrospectionRegistry" if dump else "IntrospectionRegistry", c, os.path.join(wd, tag),
+                        workers=workers, timeout=3000)
+
+
+def run_g_level(out, wd, paths, openf, stats, findings_text, tag):
+    """The registry is an exact contract (a mapping URI -> agent): every answer must be the one M gives."""
+    cases = [{"id": "%s.%d" % (tag, i), "cfg": {"level": "G"}, "acts": p} for i, p in enumerate(paths) if p]
+    if not cases:
+        return
+    results = rp.run_cases("h_runtime", "introspect", cases, wd, tag=tag, input_keys=G_INPUT)
+    for c, r in zip(cases, results):
+        stats["g_cases"] += 1
+        stats["g_steps"] += len(c["acts"])
+        if r.get("panic"):
+            if str(r["panic"]).startswith("harness:"):
+                raise core.ToolError("harness: %s (case %s)" % (r["panic"], c["id"]))
+            out.violation("panic in the introspection registry (%s case %s): %s" % (tag, c["id"], r["panic"]),
+                          {"component": "registry", "case": c, "observed": r})
+            stats["rejected"] += 1
+            continue
+        exp = [rp.project(a, G_INPUT) for a in c["acts"]]
+        obs = r.get("obs", [])
+        d = next((i for i in range(len(exp)) if i >= len(obs) or exp[i] != obs[i]), None)
+        if d is None:
+            stats["g_conform"] += 1
+        elif c["acts"][d].get("nest") == 1 and "F3f" in openf:
+            # the contract is broken in the circumstances of the open finding: URIs nested in one another
+            stats["g_known"] += 1
+            stats["kf_hits"]["F3f"] = stats["kf_hits"].get("F3f", 0) + 1
+            stats["g_kf_hits"]["F3f"] = stats["g_kf_hits"].get("F3f", 0) + 1
+            out.known_finding(findings_text["F3f"])
+            if len(stats["kf_samples"].setdefault("F3f", [])) < 3:
+                stats["kf_samples"]["F3f"].append({"level": "G", "calls": [rp.inputs(a, G_INPUT - {"nest"}) for a in c["acts"]][: d + 1],
+                                                   "contract": exp[d], "real_code": obs[d] if d < len(obs) else None})
+        else:
+            stats["rejected"] += 1
+            if stats["g_reported"] < 6:
+                stats["g_reported"] += 1
+                out.violation("registry of agents, %s case %s step %d %s: the mapping URI -> agent requires %s, the real code gave %s" % (
+                    tag, c["id"], d, json.dumps(rp.inputs(c["acts"][d], G_INPUT - {"nest"})), json.dumps(exp[d]),
+                    json.dumps(obs[d]) if d < len(obs) else None), {"component": "registry", "case": c, "observed": r})
+
+
 class PBatch:
     """P (Trace_Links) over many recorded executions in as few TLC runs as possible."""
 
-    def __init__(self, wd, enabled, max_rejects=12):
+    def __init__(self, wd, enabled, max_rejects=12, module="Trace_Links", trace_of=None, tag="tv"):
         self.wd, self.enabled, self.n, self.events = wd, enabled, 0, 0
         self.rejects_left = max_rejects
+        self.module, self.trace_of, self.tag = module, trace_of, tag
 
     def validate(self, items):
         """items: [(case, result)] -> [dict(accepted, kf:set, detail) | None] in order.
@@ -274,15 +476,15 @@ class PBatch:
         while start < len(items) and self.rejects_left > 0:
             evs, bounds = [], []
             for c, r in items[start:]:
-                t = to_trace(c, r)
+                t = (self.trace_of or to_trace)(c, r)
                 bounds.append((len(evs), len(evs) + len(t)))
                 evs += t
             self.n += 1
             self.events += len(evs)
-            res = core.trace_validate("Trace_Links", evs, os.path.join(self.wd, "tv%d" % self.n),
+            res = core.trace_validate(self.module, evs, os.path.join(self.wd, "%s%d" % (self.tag, self.n)),
                                       constants={"Enabled": fset(self.enabled)}, timeout=3000, xmx="3g")
             if res.get("status", "").startswith("invariant"):
-                raise core.ToolError("Trace_Links failed: %s" % res)
+                raise core.ToolError("%s failed: %s" % (self.module, res))
             kfs = {}
             for f, csn in res.get("kf", []):
                 kfs.setdefault(csn - 1, set()).add(f)
@@ -296,8 +498,8 @@ class PBatch:
                 verdicts[start + j] = {"accepted": True, "kf": kfs.get(j, set())}
             lo, hi = bounds[bad]
             verdicts[start + bad] = {"accepted": False, "kf": set(),
-                                     "detail": "P (Trace_Links) rejects the recorded history at step %d: %s" % (
-                                         m - lo - 1, json.dumps(evs[m]))}
+                                     "detail": "P (%s) rejects the recorded history at step %d: %s" % (
+                                         self.module, m - lo - 1, json.dumps(evs[m]))}
             start += bad + 1
             self.rejects_left -= 1
         return verdicts
@@ -467,7 +669,18 @@ def run(tier, out):
     if variant["Guard"] == "none":
         needed.add("F3b")
     repaired = {"KeepEntry": True, "Guard": "all"}
-    core.log("[C20] probed variant of M: %s; excuses it needs: %s; open findings: %s" % (variant, sorted(needed), sorted(openf)))
+    core.build_harness("h_runtime", "introspect")
+    ivariant = probe_i(wd)
+    ineeded = set()
+    if not ivariant["MsgFirst"]:
+        ineeded.add("F3d")
+    if not ivariant["LaneMetaLives"]:
+        ineeded.add("F3e")
+    irepaired = {"MsgFirst": True, "LaneMetaLives": True}
+    gneeded = set()
+    ivariant_all = dict(ivariant)
+    core.log("[C20] probed variant of M: %s %s; excuses it needs: %s; open findings: %s" % (
+        variant, ivariant_all, sorted(needed | ineeded | gneeded), sorted(openf)))
 
     # ---- B3 + graph dumps, in parallel (<= 4 TLC workers in total)
     jobs = {}
@@ -495,7 +708,22 @@ def run(tier, out):
             # the repaired variant satisfies P with no excuse and never meets the findings' circumstances
             jobs["fixK"] = ex.submit(job_check, wd, "fixK", consts("K", 2, 2, repaired, set()), False, 1, True)
             jobs["fixW"] = ex.submit(job_check, wd, "fixW", consts("W", 2, 2, repaired, set()), False, 1, True)
+        # the reporting layer (Introspection.tla)
+        jobs["iChk"] = ex.submit(job_icheck, wd, "iChk", i_consts(1, 1, 1, ivariant, ineeded))
+        jobs["iSim"] = ex.submit(job_isim, wd, "iSim", i_consts(2, 2 if not quick else 1, 2, ivariant, ineeded, 30),
+                                 30 if quick else 500, core.seed() + 2)
+        if "F3d" in ineeded:
+            jobs["iStrictD"] = ex.submit(job_icheck, wd, "iStrictD", i_consts(1, 1, 1, ivariant, ineeded - {"F3d"}))
+        if "F3e" in ineeded:
+            jobs["iStrictE"] = ex.submit(job_icheck, wd, "iStrictE", i_consts(1, 1, 1, ivariant, ineeded - {"F3e"}))
+        if ineeded:
+            jobs["iFix"] = ex.submit(job_icheck, wd, "iFix", i_consts(1, 1, 1, irepaired, set()),
+                                     ("NoLostRegistration", "NoEatenCounts"))
+        # the registry of agents (IntrospectionRegistry.tla)
+        jobs["gDump"] = ex.submit(job_gcheck, wd, "gDump", {"NA": 2}, True)
         if not quick:
+            jobs["gBig"] = ex.submit(job_gcheck, wd, "gBig", {"NA": 3}, False, 2)
+            jobs["iBig"] = ex.submit(job_icheck, wd, "iBig", i_consts(1, 2, 2, ivariant, ineeded), (), 2)
             jobs["bigK2"] = ex.submit(job_check, wd, "bigK2", consts("K", 3, 2, variant, needed), False, 2, False, False)
             jobs["bigW"] = ex.submit(job_check, wd, "bigW", consts("W", 3, 2, variant, needed), False, 2, False, False)
             jobs["bigW2"] = ex.submit(job_check, wd, "bigW2", consts("W", 2, 3, variant, needed), False, 2, False, False)
@@ -512,7 +740,7 @@ def run(tier, out):
     for k, r in R.items():
         tlc_stats[k] = {"status": r.status, "violated": r.violated, "generated": r.generated, "distinct": r.distinct,
                         "depth": r.depth, "wall_s": round(r.wall, 1)}
-        expect_fail = k in ("strictA", "strictB", "cntStore")
+        expect_fail = k in ("strictA", "strictB", "cntStore", "iStrictD", "iStrictE")
         if expect_fail:
             if r.ok:
                 raise core.ToolError("%s: the model without the excuse / with the wrong design satisfies P - "
@@ -520,7 +748,7 @@ def run(tier, out):
             continue
         if not r.ok:
             raise core.ToolError("M violates P in TLC (%s: %s %s):\n%s" % (k, r.status, r.violated, r.counterexample[:3000]))
-        if k.startswith("sim"):
+        if k.startswith("sim") or k == "iSim":
             continue
         states += r.distinct
         transitions += r.generated
@@ -534,7 +762,7 @@ def run(tier, out):
 
     # ---- B1/B2: replay
     pb = PBatch(wd, openf)
-    stats = dict(r_cases=0, r_steps=0, r_accepted=0, r_not_stopped=0, r_kf_hits={}, unexamined=0, excused_without_deviation=0, cases=0, steps=0, conform=0, drift=0, rejected=0, known=0, p_validated=0, excused_by_model=0,
+    stats = dict(g_cases=0, g_steps=0, g_conform=0, g_known=0, g_reported=0, g_kf_hits={}, i_cases=0, i_steps=0, i_conform=0, i_accepted=0, i_p_events=0, i_kf_hits={}, i_drift_candidates=[], r_cases=0, r_steps=0, r_accepted=0, r_not_stopped=0, r_kf_hits={}, unexamined=0, excused_without_deviation=0, cases=0, steps=0, conform=0, drift=0, rejected=0, known=0, p_validated=0, excused_by_model=0,
                  excused_cap=150 if quick else 1500, kf_hits={}, kf_samples={})
     graph_edges = 0
     covered_edges = 0
@@ -584,6 +812,32 @@ def run(tier, out):
     core.log("[C20] level R (whole runtime): %d scripts, %d steps, accepted by P %d, findings hit %s" % (
         stats["r_cases"], stats["r_steps"], stats["r_accepted"], stats["r_kf_hits"]))
 
+    # ---- level I: the real introspection task and meta agents
+    t_i0 = time.time()
+    run_i_level(out, wd, [list(x) for x in I_SIGNATURES], 2, 1, openf, stats, findings_text, "isig", with_expected=False)
+    i_paths, seen = [], set()
+    for p_ in R["iSim"].tagged["REPLAY"]:
+        c_ = core.canon([rp.inputs(a, I_INPUT) for a in p_])
+        if c_ not in seen:
+            seen.add(c_)
+            i_paths.append(p_)
+    rng.shuffle(i_paths)
+    i_paths = i_paths[: 150 if quick else 3000]
+    run_i_level(out, wd, i_paths, 2, 1 if quick else 2, openf, stats, findings_text, "isim")
+    gg = core.Graph(R["gDump"].tagged["EDGE"], init_views=R["gDump"].tagged["INIT"])
+    g_paths, g_cov = cover(gg, rng, max_len=60)
+    g_paths += gg.random_walks(100 if quick else 3000, 25, rng)
+    graph_edges += gg.n_edges
+    covered_edges += g_cov
+    run_g_level(out, wd, g_paths, openf, stats, findings_text, "greg")
+    core.log("[C20] level G (registry of agents, mesh meta agent): %d states %d edges -> %d scripts, %d steps, equal to M %d, broken in F3f's circumstances %d" % (
+        R["gDump"].distinct, gg.n_edges, stats["g_cases"], stats["g_steps"], stats["g_conform"], stats["g_known"]))
+    t_i = time.time() - t_i0
+    if i_paths:
+        out.sample({"level": "I", "calls_with_expected_observations": i_paths[0][:10]})
+    core.log("[C20] level I (introspection task + meta agents): %d scripts, %d steps, equal to M %d, accepted by P %d, findings hit %s" % (
+        stats["i_cases"], stats["i_steps"], stats["i_conform"], stats["i_accepted"], stats["i_kf_hits"]))
+
     # a finding that is listed but no longer observed: say so (nothing is suppressed by it)
     for f in sorted(openf - set(stats["kf_hits"])):
         out.notes.append("open finding %s was not observed on this tree" % f)
@@ -591,7 +845,13 @@ def run(tier, out):
     stress(out, rng, 6 if quick else 60, 20000 if quick else 300000)
 
     out.add(states=states, transitions=transitions,
-            traces_validated_against_impl=stats["cases"] + stats["r_cases"],
+            traces_validated_against_impl=stats["cases"] + stats["r_cases"] + stats["i_cases"] + stats["g_cases"],
+            introspection_scripts=stats["i_cases"], introspection_steps=stats["i_steps"],
+            introspection_equal_to_M=stats["i_conform"], introspection_accepted_by_P=stats["i_accepted"],
+            introspection_p_trace_events=stats["i_p_events"], introspection_finding_hits=stats["i_kf_hits"],
+            introspection_model_variant=ivariant_all,
+            registry_scripts=stats["g_cases"], registry_steps=stats["g_steps"], registry_equal_to_M=stats["g_conform"],
+            registry_contract_broken_under_F3f=stats["g_known"],
             whole_runtime_scripts=stats["r_cases"], whole_runtime_steps=stats["r_steps"],
             whole_runtime_accepted_by_P=stats["r_accepted"], whole_runtime_finding_hits=stats["r_kf_hits"],
             whole_runtime_not_stopped_cleanly=stats["r_not_stopped"],
@@ -601,7 +861,7 @@ def run(tier, out):
             graph_edges=graph_edges, graph_edges_covered_by_replay=covered_edges, known_finding_hits=stats["kf_hits"], known_finding_samples=stats["kf_samples"],
             model_variant=variant, tlc=tlc_stats,
             phase_wall_s={"tlc_model_checking": round(t_tlc, 1), "replay_K_W": round(t_r0 - t_start - t_tlc, 1),
-                          "whole_runtime": round(t_r, 1)},
+                          "whole_runtime": round(t_r, 1), "introspection": round(t_i, 1)},
             action_coverage={a: {"distinct": d, "taken": t} for a, (d, t) in sorted(cov.items())},
             actions_never_taken=never, exhaustive=True,
             rule="B3: complete state spaces of Links.tla (K and W, scopes in `tlc`), P as action property on every "
@@ -647,6 +907,45 @@ def replay(path, out):
             return 1
         return 0
     case = obj["case"]
+    if obj.get("component") == "registry":
+        core.build_harness("h_runtime", "introspect")
+        res = rp.run_cases("h_runtime", "introspect", [case], wd, tag="replay", input_keys=G_INPUT)[0]
+        if res.get("panic"):
+            print("panic:", res["panic"])
+            print("VIOLATION property=%s replay=%s" % (PROP, path))
+            return 1
+        exp = [rp.project(a, G_INPUT) for a in case["acts"]]
+        obs = res.get("obs", [])
+        for i, (a, o) in enumerate(zip(case["acts"], obs)):
+            print("  %2d %-34s -> %s%s" % (i, json.dumps(rp.inputs(a, G_INPUT - {"kf"})), json.dumps(o),
+                                           "" if exp[i] == o else "   EXPECTED (recorded) %s" % json.dumps(exp[i])))
+        openf = {f["id"] for f in core.open_findings(PROP)}
+        d = next((i for i in range(len(exp)) if i >= len(obs) or exp[i] != obs[i]), None)
+        if d is None:
+            return 0
+        if case["acts"][d].get("nest") == 1 and "F3f" in openf:
+            print("KNOWN-FINDING: property=%s F3f" % PROP)
+            return 0
+        print("VIOLATION property=%s replay=%s" % (PROP, path))
+        return 1
+    if obj.get("component") == "introspect":
+        core.build_harness("h_runtime", "introspect")
+        res = rp.run_cases("h_runtime", "introspect", [case], wd, tag="replay", input_keys=I_INPUT)[0]
+        if res.get("panic"):
+            print("panic in the introspection layer:", res["panic"])
+            print("VIOLATION property=%s replay=%s" % (PROP, path))
+            return 1
+        for i, (a, o) in enumerate(zip(case["acts"], res.get("obs", []))):
+            print("  %2d %-30s -> %s" % (i, json.dumps(rp.inputs(a, I_INPUT)), json.dumps(o)))
+        openf = {f["id"] for f in core.open_findings(PROP)}
+        v = PBatch(wd, openf & {"F3d", "F3e"}, module="Trace_Introspection", trace_of=i_trace).validate([(case, res)])[0]
+        print("P verdict:", {k: (sorted(x) if isinstance(x, set) else x) for k, x in v.items()})
+        if not v["accepted"]:
+            print("VIOLATION property=%s replay=%s" % (PROP, path))
+            return 1
+        for f in sorted(v["kf"]):
+            print("KNOWN-FINDING: property=%s %s" % (PROP, f))
+        return 0
     core.build_harness("h_runtime", "links")
     res = rp.run_cases("h_runtime", "links", [case], wd, tag="replay", input_keys=INPUT_KEYS)[0]
     if res.get("panic"):
